@@ -14,9 +14,10 @@ Definition C03_full : Prop := forall inputs M tm,
   (forall u s T fld, In (u, s) inputs -> has_field s T fld -> is_builtin T = false -> has_field M T fld) /\
   (forall T fld, has_field M T fld -> exists u s, In (u, s) inputs /\ has_field s T fld).
 
-(* It is false of the faithful model (and of the code: listed finding C03-field-signature): two services that declare
-   the plain type V with a field x of different types merge, and the merged V has one of the two signatures only.
-   (Until fix of C03-node-lost the witness was the Relay entry point, lost unless the last service declared it.) *)
+(* It is false of the faithful model (and of the code: listed finding C03-node-interface-fields): the Node interface is
+   never compared, the accumulated definition stays; a field another service declares on it is lost.
+   (Earlier witnesses, repaired since: the Relay entry point lost unless the last service declared it, C03-node-lost;
+   V{x:Int} and V{x:String} merging into one signature, C03-field-signature — now rejected, see C05.) *)
 Definition wA : schema :=
   [mkDef KInterface "Node" "" [] [mkField "id" [] "ID!"] [] [];
    mkDef KObject "N0" "" ["Node"] [mkField "id" [] "ID!"; mkField "a" [] "String"] [] [];
@@ -25,31 +26,28 @@ Definition wB : schema :=
   [mkDef KInterface "Node" "" [] [mkField "id" [] "ID!"] [] [];
    mkDef KObject "N0" "" ["Node"] [mkField "id" [] "ID!"; mkField "b" [] "String"] [] [];
    mkDef KObject "Query" "" [] [mkField "qb" [] "N0"] [] []].
-Definition vA : schema :=
-  [mkDef KObject "V" "" [] [mkField "x" [] "Int"] [] [];
-   mkDef KObject "Query" "" [] [mkField "qa" [] "V"] [] []].
-Definition vB : schema :=
-  [mkDef KObject "V" "" [] [mkField "x" [] "String"] [] [];
-   mkDef KObject "Query" "" [] [mkField "qb" [] "V"] [] []].
+Definition nA : schema :=
+  [mkDef KInterface "Node" "" [] [mkField "id" [] "ID!"] [] [];
+   mkDef KObject "N0" "" ["Node"] [mkField "id" [] "ID!"; mkField "a" [] "String"] [] [];
+   mkDef KObject "Query" "" [] [mkField "qa" [] "N0"] [] []].
+Definition nB : schema :=
+  [mkDef KInterface "Node" "" [] [mkField "id" [] "ID!"; mkField "createdAt" [] "String"] [] [];
+   mkDef KObject "N1" "" ["Node"] [mkField "id" [] "ID!"; mkField "createdAt" [] "String"] [] [];
+   mkDef KObject "Query" "" [] [mkField "qb" [] "N1"] [] []].
 
 Theorem C03_refuted : ~ C03_full.
 Proof.
   intros H.
-  destruct (merge [("A", vA); ("B", vB)]) as [|es|M tm] eqn:E; try (vm_compute in E; discriminate).
-  assert (Hwf : forall u s, In (u, s) [("A", vA); ("B", vB)] -> wf_schema s).
+  destruct (merge [("A", nA); ("B", nB)]) as [|es|M tm] eqn:E; try (vm_compute in E; discriminate).
+  assert (Hwf : forall u s, In (u, s) [("A", nA); ("B", nB)] -> wf_schema s).
   { intros u s [X|[X|[]]]; inversion X; subst; apply wf_schemab_ok; vm_compute; reflexivity. }
   destruct (H _ _ _ Hwf E) as [Hsup _].
-  assert (HfA : has_field vA "V" (mkField "x" [] "Int")).
-  { exists (mkDef KObject "V" "" [] [mkField "x" [] "Int"] [] []). cbn. repeat split; auto. }
-  assert (HfB : has_field vB "V" (mkField "x" [] "String")).
-  { exists (mkDef KObject "V" "" [] [mkField "x" [] "String"] [] []). cbn. repeat split; auto. }
-  destruct (Hsup "A" vA "V" _ (or_introl eq_refl) HfA eq_refl) as (d & Hd & Hn & Hfld).
-  destruct (Hsup "B" vB "V" _ (or_intror (or_introl eq_refl)) HfB eq_refl) as (d' & Hd' & Hn' & Hfld').
-  vm_compute in E. inversion E; subst M. cbn in Hd, Hd'.
+  assert (Hf : has_field nB "Node" (mkField "createdAt" [] "String")).
+  { exists (mkDef KInterface "Node" "" [] [mkField "id" [] "ID!"; mkField "createdAt" [] "String"] [] []). cbn. repeat split; auto. }
+  destruct (Hsup "B" nB "Node" _ (or_intror (or_introl eq_refl)) Hf eq_refl) as (d & Hd & Hn & Hfld).
+  vm_compute in E. inversion E; subst M. cbn in Hd.
   repeat (destruct Hd as [Hd|Hd]; [subst d; cbn in Hn; try discriminate Hn; cbn in Hfld;
-     repeat (destruct Hfld as [Hfld|Hfld]; [try discriminate Hfld|]); try contradiction|]); try contradiction.
-  all: repeat (destruct Hd' as [Hd'|Hd']; [subst d'; cbn in Hn'; try discriminate Hn'; cbn in Hfld';
-     repeat (destruct Hfld' as [Hfld'|Hfld']; [try discriminate Hfld'|]); try contradiction|]); contradiction.
+     repeat (destruct Hfld as [Hfld|Hfld]; [discriminate Hfld|]); try contradiction|]); contradiction.
 Qed.
 
 (* The part that is proved, for any number of services in any order (C03_partial): *)
@@ -81,7 +79,9 @@ Qed.
 (* (3) the other inclusion, at the level of field names: every field name of every service's object / interface /
    input type is a field name of the same-named type of the merged schema, for any number of services in any order —
    away from `id` and built-in names; since the repair of C03-node-lost also for the Relay entry point `node`, whichever
-   services declare it. Signatures are not claimed (finding C03-field-signature). *)
+   services declare it. Signatures: a set in which two services give a field of one name different signatures is rejected
+   (C05: shared_field_with_another_signature_is_rejected), so the merged field has the signature every declaring service
+   gives it up to the order of arguments. The Node interface itself is excepted (finding C03-node-interface-fields). *)
 Theorem merged_has_every_field_name : forall inputs M tm u s d n,
   (forall u s, In (u, s) inputs -> wf_schema s) -> merge inputs = MOk M tm ->
   In (u, s) inputs -> In d s -> is_builtin (d_name d) = false -> d_name d <> "Node" -> fielded_kind (d_kind d) ->
